@@ -237,6 +237,20 @@ func ntAndUTF16(c *vf.Ctx) {
 	for n := 0; n <= 70; n++ {
 		ss = append(ss, strings.Repeat("a", n), strings.Repeat("\U0001F600", n), strings.Repeat("é", n))
 	}
+	// one wide (surrogate pair) / one two-byte-UTF-8 character at EVERY UTF-16 offset of a longer password, so
+	// that it meets every position relative to the 64-byte MD4 block and to any internal chunking
+	for pos := 0; pos <= 100; pos++ {
+		for _, tail := range []int{0, 1, 33} {
+			ss = append(ss, strings.Repeat("a", pos)+"\U0001F600"+strings.Repeat("b", tail), strings.Repeat("a", pos)+"é"+strings.Repeat("b", tail))
+		}
+	}
+	for _, n := range []int{127, 128, 129, 255, 256, 257, 511, 512, 513, 1023, 1024, 1025, 5000} {
+		az := make([]byte, n)
+		for i := range az {
+			az[i] = 'a' + byte(i%26)
+		}
+		ss = append(ss, string(az), strings.Repeat("\U00010428", n/2)+strings.Repeat("x", n%2))
+	}
 	vf.Par(len(ss), func(i int) {
 		s := ss[i]
 		want16 := rc.UTF16LE(s)
@@ -294,6 +308,10 @@ func lmHash(c *vf.Ctx) {
 func dccAll(c *vf.Ctx) {
 	pws := enum.Strings([]string{"a", "P", "é", "\U0001F600"}, 2)
 	users := []string{"", "a", "Admin", "ADMIN", "administrator", "é", "É", "Σ", "σ", "Я", "\U00010400", "\U00010428", "user.name", "Ünï"}
+	// long user names (user@dns-domain forms are long): both sides of every size a salt buffer or a limit could have
+	for _, n := range []int{19, 20, 21, 27, 28, 31, 32, 33, 63, 64, 65, 127, 128, 129, 130, 255, 256, 257, 1000} {
+		users = append(users, "U"+strings.Repeat("s", n-1), strings.Repeat("\U00010400", n/2)+strings.Repeat("x", n%2))
+	}
 	type pu struct{ p, u string }
 	var cases []pu
 	for _, p := range pws {
